@@ -46,6 +46,9 @@ def obligations(tier):
         Ob("C03.ad", "X", "Factor: x*factor; Metadata: (x, attrs); Flag: x != 0; StripNullBytes", ["ceos_alos2.datatypes:Factor._decode", "ceos_alos2.datatypes:Metadata._decode",
            "ceos_alos2.sar_image.enums:Flag._decode", "ceos_alos2.datatypes:StripNullBytes._decode"], bounds="forall ints x, factor; flag < 2**32",
            harness="harness/h_adapters.py", func="simple_adapters_ok", timeout=to),
+        Ob("C03.seq", "X", "both record types in one process: a level-1.1 and a level-1.5 file with equal record length and line count read in sequence are each split "
+           "with their own record type's layout (nothing remembered between files)", ["ceos_alos2.sar_image.io:parse_chunk", "ceos_alos2.sar_image.io:read_metadata"],
+           bounds="forall 12<=H1,H2<L; n in 0..3, rpc in 1..3", harness="harness/h_image.py", func="meta_seq_ok", state_witness=["meta_seq_ok(544, 192, 560)", "meta_seq_ok(192, 544, 560)"], params={"ns": [0, 1, 2, 3], "rpcs": [1, 2, 3]}, timeout=to),
         Ob("C03.ydms", "X", "per-line acquisition time: (year, day_of_year, ms) decodes to 1 January of the year + (day-1) days + ms, for every stamp incl. day 366 of leap years",
            ["ceos_alos2.datatypes:DatetimeYdms._decode"], bounds="forall year 2014..2049, doy 1..366, ms 0..86399999", harness="harness/h_time.py", func="ydms_ok", timeout=to),
         Ob("C03.ydus.live", "X", "the microsecond adapter object inside the live signal-data struct: date of THIS line's ms stamp + us, for consecutive lines/files with different dates "
